@@ -217,11 +217,99 @@ def compare_terms(g, e, F, name, out, hyps=(), t0=None):
 _fresh_re = re.compile(r"#\d+")
 
 
-def check_sides(sidelog, F, prefix, out, extra_hyps=()):
-    """discharge definedness side conditions emitted while the body ran"""
+def structural_defs(value, acc=None, guards=(), depth=0):
+    """definedness conditions readable off a final term, path-sensitively:
+    def(ite(c,a,b)) = c ? def(a) : def(b)   (DESIGN §2.4).
+    returns list of (kind, poly, guards)"""
+    acc = [] if acc is None else acc
+    if isinstance(value, Arr):
+        idx = [T.fresh("q") for _ in value.shape]
+        e = value.fn(*idx)
+        if isinstance(e, (Poly, Cond)):
+            structural_defs(e, acc, guards, depth)
+        return acc
+    if isinstance(value, Obj):
+        for v in value.fields.values():
+            if isinstance(v, (Arr, Poly)):
+                structural_defs(v, acc, guards, depth)
+        return acc
+    if isinstance(value, (list, tuple)):
+        for v in value:
+            structural_defs(v, acc, guards, depth)
+        return acc
+    if isinstance(value, Cond):
+        for a in value.args:
+            if isinstance(a, (Poly, Cond)):
+                structural_defs(a, acc, guards, depth)
+        return acc
+    if not isinstance(value, Poly) or depth > 12:
+        return acc
+    for m, _c in value.terms:
+        for a, p in m:
+            k = a.kind
+            if p < 0:
+                acc.append(("nonzero", a.args[0] if k == "rcp" else Poly.atom(a), guards))
+            if k == "rcp":
+                if p > 0:
+                    acc.append(("nonzero", a.args[0], guards))
+                structural_defs(a.args[0], acc, guards, depth + 1)
+            elif k == "log":
+                acc.append(("nonzero", a.args[0], guards))
+                structural_defs(a.args[0], acc, guards, depth + 1)
+            elif k == "ite":
+                c = a.args[0]
+                structural_defs(c, acc, guards, depth + 1)
+                structural_defs(a.args[1], acc, guards + (c,), depth + 1)
+                structural_defs(a.args[2], acc, guards + (T.c_not(c),), depth + 1)
+            elif k in T.BINDERS:
+                v, bound, body = T.open_binder(a)
+                if bound is not None:
+                    g2 = guards + (T.cmp_cond("<=", ZERO, v), T.cmp_cond("<", v, bound))
+                else:
+                    g2 = guards
+                structural_defs(body, acc, g2, depth + 1)
+            else:
+                for x in a.args:
+                    if isinstance(x, (Poly, Cond)):
+                        structural_defs(x, acc, guards, depth + 1)
+    return acc
+
+
+def _norm_key(p):
+    return _fresh_re.sub("#", repr(p))
+
+
+def check_sides(sidelog, F, prefix, out, extra_hyps=(), final_values=None):
+    """discharge definedness side conditions emitted while the body ran.  A
+    division/log recorded at operation time whose operand is still visible in
+    the final values is checked there, under the guards of the np.where
+    branches that select it; one that has been cancelled away is checked
+    unconditionally."""
     seen = set()
     n = 0
+    guarded = {}
+    if final_values is not None:
+        for kind, poly, guards in structural_defs(final_values):
+            guarded.setdefault((kind, _norm_key(poly)), []).append((poly, guards))
+        for (kind, key), lst in guarded.items():
+            for poly, guards in lst:
+                k2 = (kind, key, tuple(sorted(_norm_key(g) for g in guards)))
+                if k2 in seen:
+                    continue
+                seen.add(k2)
+                t0 = time.time()
+                st, info = smt.prove_side(kind, poly, F, list(guards) + list(extra_hyps))
+                n += 1
+                nm = "%s.def.%s@result" % (prefix, kind)
+                desc = "%s must be %s%s" % (T.show(poly, 300), {"pos": "> 0", "nonzero": "!= 0"}[kind],
+                                          (" when " + " and ".join(repr(g) for g in guards)) if guards else "")
+                status = "discharged" if st == "proved" else ("refuted" if st == "refuted" else "undecided")
+                out.append(Clause(nm, status, info.get("backend", ""), desc,
+                                  witness=({"model": info.get("model"), "names": info.get("names")} if st == "refuted" else None),
+                                  secs=time.time() - t0))
     for kind, what, why, loc, assumed in sidelog.items:
+        if final_values is not None and kind in ("pos", "nonzero") and (kind, _norm_key(P(what))) in guarded:
+            continue
         if kind == "delta-range":
             e, b = what
             if T.symname(e) is not None:
